@@ -112,6 +112,17 @@ pub fn run_scenario_env(root: &Path, scn: &Value, fail_at: Option<u64>, pack_fai
     if let Some(n) = fail_at {
         cmd.env("VSTUB_FAIL_AT", n.to_string());
     }
+    // failure flavour: derived from the scenario so that it is reproducible from the replay file
+    const CODES: [i32; 5] = [1, 125, 126, 127, 2];
+    const MSGS: [&str; 5] = [
+        "vstub: injected failure",
+        "docker: Error response from daemon: No such image.",
+        "ERROR: failed to build: Cannot connect to the Docker daemon at unix:///var/run/docker.sock. Is the docker daemon running?",
+        "Error response from daemon: Conflict. The container name is already in use",
+        "Error: No such container",
+    ];
+    let flavour = scn["fail_flavour"].as_u64().unwrap_or(0) as usize;
+    cmd.env("VSTUB_FAIL_CODE", CODES[flavour % CODES.len()].to_string()).env("VSTUB_FAIL_MSG", MSGS[(flavour / CODES.len()) % MSGS.len()]);
     let out = cmd.output().expect("spawn vworker");
     let log_entries: Vec<Value> = std::fs::read_to_string(&log).unwrap_or_default().lines().filter_map(|l| serde_json::from_str(l).ok()).collect();
     let tmp_left: Vec<String> = std::fs::read_dir(root.join("tmp")).map(|rd| rd.flatten().map(|e| e.file_name().to_string_lossy().to_string()).collect()).unwrap_or_default();
